@@ -333,9 +333,12 @@ class WebSocket:
             raise
         except Exception:
             # NOTE: The close event was not delivered (e.g., the server has
-            #   refused the code): the connection is still what it was.
+            #   refused the code): the connection is still what it was, so
+            #   receiving must keep working as well.
             self._state = previous_state
             self._close_code = None
+            if previous_state == _WebSocketState.ACCEPTED:
+                self._buffered_receiver.start()
             raise
 
         self._state = _WebSocketState.CLOSED
